@@ -49,7 +49,7 @@ def directed(rng):
                                         dict(a='gate', site='cli.req.lock', h='h2'), dict(a='gate', site='cli.req.lock', h='h1'), D, hret('h1.1'), hret('h2.2'), hret('h2.1'), hret('h1.2'), D])
         add('mixed-%d' % v, [http('h1', [No, Ca(1), Iv(2), Ca(3)]), http('h2', [No, No]), http('h3', [Iv(0)]), D, hret('h1.1'), hret('h2.1'), hret('h2.2'), D, hret('h1.2'), hret('h1.4'), D])
         add('dup-in-body-%d' % v, [http('h1', [Ca(1), Ca(1)]), D, hret('h1.1'), hret('h1.2'), D])
-        add('refused-%d' % v, [http('h1', [Ca(1)], 'notpost'), http('h2', [Ca(1)], 'badtype'), http('h3', [Ca(2)], 'badcharset'), http('h4', [Ca(1)], 'garbage'), http('h5', [], 'emptyarr'),
+        add('refused-%d' % v, [http('h1', [Ca(1)], 'notpost'), http('h2', [Ca(1)], 'badtype'), http('h3', [Ca(2)], 'badcharset'), http('h4', [Ca(1)], 'garbage'), http('h5', [], 'emptyarr'), http('h7', [Ca(1)], 'trailing'), http('h8', [No, Ca(2)], 'trailing'), http('h9', [No], 'trailing'),
                                http('h6', [Ca(1)]), D, hret('h6.1'), D])
         add('many-%d' % v, [http('h%d' % i, [Ca(1), Ca(2 + i % 2)]) for i in range(1, 6)] + [D] + [hret('h%d.%d' % (i, j)) for j in (2, 1) for i in (5, 3, 1, 2, 4)] + [D])
     return out
